@@ -116,3 +116,36 @@ def install_fast_poll(cap):
 def run(coro):
     import asyncio
     return asyncio.run(coro)
+
+
+_no_backoff = False
+
+
+def no_backoff_sleep():
+    """Retry logic unchanged, waiting removed: the sleeps of the backoff library and of the
+    B2 adapter's retry-after handling become zero-length."""
+    global _no_backoff
+    if _no_backoff:
+        return
+    import asyncio
+    import backoff._async as BA
+    import backoff._sync as BS
+    real_sleep = asyncio.sleep
+
+    async def sleep(delay=0, result=None):
+        return await real_sleep(0, result)
+    proxy = types.ModuleType('asyncio_proxy_nosleep')
+    proxy.__dict__.update(asyncio.__dict__)
+    proxy.sleep = sleep
+    BA.asyncio = proxy
+    tproxy = types.ModuleType('time_proxy_nosleep')
+    import time as _time
+    tproxy.__dict__.update(_time.__dict__)
+    tproxy.sleep = lambda s: None
+    BS.time = tproxy
+    try:
+        import replicat.backends.b2 as B2
+        B2.asyncio = proxy
+    except Exception:
+        pass
+    _no_backoff = True
